@@ -51,17 +51,23 @@ fn check(bsize: usize, balign: usize) {
     assert!(pa + bsize <= pb || pb + bsize <= pa);
     // exhaust, then OutOfMemory
     let mut k = 2;
+    let mut last = b;
     while k < n {
         // EVERY bucket handed out lies inside the segment and is aligned (the last one is where a wrong count shows)
-        let p = sut.allocate(req).unwrap().as_ptr() as usize;
+        let q = sut.allocate(req).unwrap();
+        let p = q.as_ptr() as usize;
         assert!(p >= lo && p + bsize <= lo + region && p % req.align() == 0);
+        last = q;
         k += 1;
     }
     assert!(sut.allocate(req) == Err(AllocationError::OutOfMemory));
-    // freed memory is reusable, and it is the freed bucket that comes back
-    unsafe { sut.deallocate_bucket(a) };
+    // freed memory is reusable, and it is the freed bucket that comes back -- for the FIRST bucket and for the LAST one (the
+    // address -> index mapping of deallocate must agree with the index -> address mapping of allocate for every bucket)
+    let victim = if kani::any() { a } else { last };
+    unsafe { sut.deallocate_bucket(victim) };
     let c = sut.allocate(req).unwrap();
-    assert!(c.as_ptr() as usize == pa);
+    assert!(c.as_ptr() as usize == victim.as_ptr() as usize);
+    assert!(sut.allocate(req) == Err(AllocationError::OutOfMemory));
     kani::cover!(true);
 }
 
